@@ -261,8 +261,17 @@ async def mem_offsets(loop, case, out, stats, fps):
         mb = conn.message_broker
         await mb.queue_declare("q")
         P = mb.PARAMETERS_CLASS
+        from datetime import datetime as _dt
+
+        from repid.data._parameters import DelayProperties
+
         for i in range(case["n"]):
             await mb.enqueue(key_of(conn, f"m{i:02d}", "t", "q"), "p", P())
+        # delayed messages that become due while the consumers are polling (promotion to the normal queue happens inside
+        # consume(); all consumers re-enter consume() at the same virtual instants)
+        for i in range(rnd.randint(1, 3)):
+            due = _dt.now() + timedelta(seconds=rnd.choice([0.01, 0.03, 0.07, 0.12]))
+            await mb.enqueue(key_of(conn, f"d{i:02d}", "t", "q"), "p", P(delay=DelayProperties(next_execution_time=due)))
         events = []
         seq = itertools.count()
         offsets = [rnd.randint(0, 12) for _ in range(case["k"])]
@@ -273,11 +282,15 @@ async def mem_offsets(loop, case, out, stats, fps):
             cons = mb.get_consumer("q", None, None, MessageCategory.NORMAL)
             await cons.start()
             held = []
-            for _ in range(case["n"] + 2):
+            empty = 0
+            for _ in range(case["n"] + 12):
                 try:
                     key, _, _ = await asyncio.wait_for(cons.consume(), 0.05)
                 except asyncio.TimeoutError:
-                    break
+                    empty += 1
+                    if empty > 4:
+                        break
+                    continue
                 events.append((next(seq), "D", key.id_, f"c{i}"))
                 for _ in range(rnd.randint(0, 5)):
                     await asyncio.sleep(0)
@@ -351,8 +364,14 @@ async def workers(loop, case, out, stats, fps):
         r = w.router()
         w.scripted_actor(r, "act")
         await w.conn.message_broker.queue_declare("default")
+        from datetime import datetime as _dt
+
+        rndw = random.Random(case["seed"])
         for i in range(case["n"]):
-            await Job("act", id_=f"j{i:03d}", args={"script": {"do": "ok", "d": 0.01}}, use_args_bucketer=False, store_result=False, _connection=w.conn).enqueue()
+            kw = {}
+            if rndw.random() < 0.4:
+                kw["deferred_until"] = _dt.now() + timedelta(seconds=rndw.choice([0.3, 1.0, 1.0, 2.2]))
+            await Job("act", id_=f"j{i:03d}", args={"script": {"do": "ok", "d": 0.01}}, use_args_bucketer=False, store_result=False, _connection=w.conn, **kw).enqueue()
         sig = __import__("signal").SIGUSR1
         ws = [Worker(routers=[r], tasks_limit=case["tl"], graceful_shutdown_time=5.0, handle_signals=[sig] if i == 0 else [], _connection=c) for i, c in enumerate(conns)]
         tasks = [loop.create_task(x.run()) for x in ws]
